@@ -54,6 +54,19 @@ PROPS = {
         assumptions=["v-model:arg on a form element: listener key onUpdate:modelValue or onUpdate:<arg> accepted",
                      "v-model on a non-form element: any model directive accepted"],
     ),
+    "C11": dict(
+        mc=[dict(module="MC_C11")], judge="Judge_C11", want=["js"],
+        rule="elements of up to MaxAttrs attributes/spreads/directives and MaxKids children whose every leaf is observable "
+             "(calls, member reads, logging getters) with position-derived unique probe ids, nested element and nested "
+             "component children, across element/bound component/unbound component/fragment hosts and option combinations; "
+             "every slot is invoked twice; the judge is a monitor state machine over the recorded runtime event trace; "
+             "non-trivial = at least two constrained leaves or a component",
+        exhaustive=dict(quick=True, thorough=True),
+        assumptions=["trivial leaves (bare identifier, literal) carry no once/order demand",
+                     "tag, directive value/argument, v-slots, v-model target/argument: exactly-once only, position unconstrained",
+                     "a repeated class/style/listener attribute may run at its own position or at its first occurrence's",
+                     "on/nativeOn under transformOn is an attribute value: strict source order"],
+    ),
     "C02": dict(
         mc=[dict(module="MC_C02")], judge="Judge_C02", want=["js"],
         rule="TLC enumerates every JSX-text string over the symbol alphabet up to the length bound in every "
